@@ -7,6 +7,7 @@ import random
 
 NAMES = ["fx_a", "fx_b", "db", "client"]
 SCOPE_WORDS = ["function", "class", "module", "package", "session"]
+STDLIB_LIKE = ["http", "types", "json", "logging", "time", "email", "random", "socket", "enum", "io", "string", "copy"]
 
 
 def fixture_src(rnd, name, params=(), scope=None, autouse=False, alias=None, body=None, doc=None,
@@ -67,6 +68,13 @@ def gen_workspace(rnd: random.Random, root="/vw", max_depth=3, chain_only=False)
     def helper_module(d, defs, imports_from=None, nonfixture=()):
         helper_count[0] += 1
         mod = "helpers_%d" % helper_count[0]
+        if rnd.random() < 0.3:
+            # module names that collide with table entries of the implementation
+            # (standard-library names are legal names for local modules)
+            cand = rnd.choice(STDLIB_LIKE)
+            if d + "/" + cand + ".py" not in files:
+                mod = cand
+                tags.append("module:stdlib-named")
         src = "import pytest\n"
         if imports_from:
             src += imports_from + "\n"
@@ -247,7 +255,11 @@ def gen_chain_workspace(rnd: random.Random, root="/vc"):
             i = int(pl[8:])
             # conftest index 0 = nearest (deepest dir)
             d = dirs[len(dirs) - 1 - i]
-            files[d + "/conftest.py"] = "import pytest\n\n" + link(req, pl) + "\n"
+            above = ""
+            if rnd.random() < 0.3:
+                above = fixture_src(rnd, "uses_" + name, params=[name]) + "\n"
+                tags.append("user-above-override")
+            files[d + "/conftest.py"] = "import pytest\n\n" + above + link(req, pl) + "\n"
         elif pl == "plugin":
             p = root + "/plugsrc/chain_plugin.py"
             files[p] = "import pytest\n\n" + link(req, pl) + "\n"
